@@ -34,8 +34,8 @@ NOTES = {
             'trusted: A0-A4; assume_specifications for u32::is_power_of_two and <[T]>::reverse; assumed contracts of to_bitwise_digits_le / to_inexact_bitwise_digits_le (Verus rejects array IntoIter and ref patterns) are covered by Kani only'),
     'C13': ('proof', 'Verus part as for C09 (BTryFrom same digit, from_digits/digits/from_digit); primitive TryFrom/From and cross-digit BTryFrom by bounded Kani harnesses.',
             'trusted: A0-A4; Kani part bounded'),
-    'C14': ('model_checking', 'bounded: Kani/CBMC (bit-precise IEEE-754) explores every input of each listed small configuration of the real crate against Rust\'s `as`; Verus has no float theory, so no unbounded proof is claimed.',
-            'bounded to the configurations listed in the evidence (kani.results[].config); trusted: Kani/CBMC, rustc float semantics as oracle'),
+    'C14': ('proof', 'Verus proves, on the real extracted bodies and for every digit count N, the generic cast_float_from_uint<U,F> (round to nearest, ties to even, exact when the value fits the mantissa, +infinity once the rounded exponent reaches MAX_EXP) and cast_uint_from_float<F,U> (truncation toward zero, NaN to 0, saturation), the f32/f64 implementations of ConvertFloatParts/FloatCastHelper, the BUint glue impls and the eight CastFrom impls between BUint/BInt and f32/f64; contracts are stated over the IEEE-754 bit pattern of the float. Kani/CBMC harnesses (bit-precise floats, Rust\'s `as` as oracle) remain as bounded cross-check and for primitive-integer <-> float.',
+            'trusted: f32/f64::{to_bits, from_bits, is_nan, is_infinite, is_sign_negative} mean what vstd::float says about the bit pattern, the float consts MANTISSA_DIGITS/MAX_EXP/MIN_EXP/INFINITY, float negation flips the sign bit, i32::try_from(u32) and u64 <</>> u32 (missing vstd specs); the spec bn_fc_u2f is the operational definition of round-half-even (lemma: nearest multiple of the ulp, even on ties), not derived from a real-number semantics of floats'),
     'C15': ('proof', 'Verus proves from_be_slice/from_le_slice for both signs (exact Some/None contract over the big/little-endian two\'s-complement value, every slice length) and to_be/from_be/to_le/from_le on the real bodies.',
             'trusted: A0-A4, the R14 wrappers around $D::from_be_bytes/from_le_bytes (trusted contract), assumed swap_bytes contract until its unit is in the closure; *_bytes (nightly feature) not covered'),
     'C16': ('proof', 'Constants: Verus proves every associated and digit-module constant initialiser (R3 form) denotes the advertised value. Digit independence: every value-level contract is stated over (BITS, signedness, value) only and is proved from the same overlay text for all four digit types; the check fails unless all four instantiations verify.',
